@@ -177,7 +177,7 @@ pub fn worker(shard: usize, nshards: usize, seed: u64, tier: &str, out: &mut Out
         .collect();
     let (games, small) = match tier {
         "thorough" => (2500u64, 40000u64),
-        _ => (120, 2500),
+        _ => (500, 10000),
     };
     let mut mon = Mon { out, seen: HashSet::new(), nontrivial: 0 };
     let mut rng = Rng::new(seed, 0xC03 + shard as u64);
